@@ -190,7 +190,7 @@ func genArgs(name string, params []schema.Type, rng *rand.Rand, n int) [][]any {
 			}
 			if name == "floatToFormattedString" {
 				vals = nil
-				for _, v := range []int64{-1, 0, 1, 2, 6, 15, 17, 20, 100, 400, 5000} {
+				for _, v := range []int64{-1, 0, 1, 2, 6, 15, 17, 20, 100, 400, 1074, 1075, 1100, 1999, 2000, 2001, 5000} {
 					vals = append(vals, v)
 				}
 			}
